@@ -11,7 +11,12 @@ from . import methods as M
 from .common import Disagreement, drive, q, ROOT
 
 PROP_MODULE = 'PbVerif.Props.C15'
-RULE = ('cases = (checker, value class representative, flags) compared with the Lean decision functions (two representatives per '
+RULE = ('method level also: every out-of-domain scalar written as numpy scalar / 0-d array / length-one list, tuple, array; for every '
+        'parameter that accepts TWO values (found by probing the valid pair on every method: 2-D lam / poly_order / num_knots / '
+        'spline_degree / diff_order / half_window pairs, snip max_half_window) the pairs with exactly ONE out-of-domain entry at either '
+        'position (zero, negative, non-integer, nan, +-inf named by the statement; None / wrong type / non-integer for integer '
+        'parameters demanded when the scalar form of the same value is rejected) as tuple, list and array, next to the all-invalid '
+        'pairs; cases = (checker, value class representative, flags) compared with the Lean decision functions (two representatives per '
         'class), and (method, dimension, parameter or array argument, out-of-domain value / non-finite position / wrong length) on '
         'every public method that has the parameter: the call must raise ValueError or TypeError (AttributeError for unknown method '
         'names); non-trivial = value outside the documented domain; distinct by canonical tuple')
@@ -135,9 +140,143 @@ BAD = {
     'half_window': [0, -1, 2.5, [2.5, 3], 3.5],
     'max_half_window': [0, -1, 2.5],
 }
+# further entry classes of a two-valued parameter.  Named by the statement: for half windows everything that is not a positive integer
+# (nan, +-inf are non-integers); for lam, -inf (<= 0).  The remaining classes (non-integer for the other integer parameters, nan / inf
+# for lam, None, wrong type) are not named: they are demanded only for CONSISTENCY - when the scalar form of the value is rejected by
+# this very method, hiding it in a pair next to a valid entry must not make it acceptable.
+NAMED_EXTRA = {
+    'half_window': [float('nan'), float('inf'), float('-inf')],
+    'max_half_window': [float('nan'), float('inf'), float('-inf')],
+    'lam': [float('-inf')],
+}
+CONSISTENCY_EXTRA = [2.5, float('nan'), float('inf'), None, 'a']
+SCALAR_FORMS = ('npscalar', '0darray', 'len1list', 'len1tuple', 'len1array')
+PAIR_FORMS = ('tuple', 'list', 'array')
+
+
+def as_form(v, form):
+    """the value `v` (a scalar or a 2-list) written in another way"""
+    if form == 'npscalar':
+        return np.float64(v) if isinstance(v, float) else np.int64(v)
+    if form == '0darray':
+        return np.array(v)
+    if form == 'len1list':
+        return [v]
+    if form == 'len1tuple':
+        return (v,)
+    if form == 'len1array':
+        return np.array([v])
+    if form == 'tuple':
+        return tuple(v)
+    if form == 'list':
+        return list(v)
+    if form == 'array':
+        return np.array(v)
+    return v
+
+
+def show(v):
+    return repr(v).replace('array(', 'np.array(').replace('np.np.', 'np.')
+
+
 P_CLOSED = {'mpls', 'mpspline', 'pspline_mpls'}          # documented 0 <= p <= 1
 LAM_OPTIONAL = {'custom_bc', 'rubberband'}                 # lam None/0 = no smoothing; diff_order only used with lam
 HW_MODULES = {'morphological', 'smooth'}
+
+
+def outcome_of(fn):
+    try:
+        with warnings.catch_warnings():
+            warnings.simplefilter('ignore')
+            fn()
+        return 'returned'
+    except (ValueError, TypeError):
+        return 'rejected'
+    except Exception as ex:          # noqa: BLE001
+        return 'other:' + type(ex).__name__
+
+
+def skip_value(name, prm, v):
+    return (prm == 'p' and v in (0, 1) and name in P_CLOSED) or (name in LAM_OPTIONAL and prm == 'lam' and v == 0)
+
+
+def with_param(name, kw0, prm, value):
+    kw = dict(kw0)
+    kw[prm] = value
+    if name in LAM_OPTIONAL and prm == 'diff_order':
+        kw['lam'] = 10.0
+    return kw
+
+
+def forms_and_pairs(ctx, dis, rng, dim, two_d, name, e, kw0, call):
+    """(a) every out-of-domain scalar of the table written as numpy scalar / 0-d array / length-one sequence; (b) for every
+    parameter of the table that ACCEPTS a pair on this method (probed with the valid pair): pairs with exactly one invalid entry, at
+    either position, in every sequence form, and the all-invalid pair"""
+    def report(prm, raw, form, outcome, why, sig):
+        dis.append(Disagreement('c15.param', f'{dim}:{name}:{prm}:{sig}', f'{dim} {name}({prm}={show(as_form(raw, form))}) '
+                                f'{"returned a baseline" if outcome == "returned" else "raised " + outcome[6:]} instead of raising ValueError/TypeError ({why})',
+                                {'kind': 'param', 'two_d': two_d, 'method': name, 'param': prm, 'value': raw, 'form': form}, True))
+
+    for prm, vals in BAD.items():
+        if prm not in e['params'] or (prm == 'half_window' and e['module'] not in HW_MODULES):
+            continue
+        scalars = [v for v in vals if not isinstance(v, list) and not skip_value(name, prm, v)]
+        # (a) the same scalar, written differently
+        for v in scalars:
+            for form in SCALAR_FORMS:
+                value = as_form(v, form)
+                outcome = outcome_of(lambda: call(with_param(name, kw0, prm, value)))
+                ctx.case((dim, name, prm, repr(v), form), nontrivial=True)
+                ctx.count('scalar-form:' + form)
+                if outcome != 'rejected':
+                    report(prm, v, form, outcome, f'the out-of-domain value {v!r} as {form}', 'form')
+        # (b) does the parameter accept two values here?
+        base = kw0.get(prm, e['params'].get(prm))
+        if isinstance(base, (tuple, list)) and len(base) == 2:
+            good = [base[0], base[1]]
+        elif isinstance(base, (int, float)) and not isinstance(base, bool):
+            good = [base, base]
+        elif M.ALT_VALUES.get(prm):
+            good = [M.ALT_VALUES[prm][-1], M.ALT_VALUES[prm][-1]]
+        else:
+            continue
+        if outcome_of(lambda: call(with_param(name, kw0, prm, tuple(good)))) != 'returned':
+            continue
+        ctx.count('pair-accepting:' + prm)
+        ctx.count('pair-accepting-method:%s:%s' % (dim, name))
+        named = scalars + NAMED_EXTRA.get(prm, [])
+        extra = [v for v in CONSISTENCY_EXTRA if not any((v == w or (isinstance(v, float) and isinstance(w, float) and np.isnan(v) and np.isnan(w)))
+                                                         and type(v) is type(w) for w in named)]
+        for v, demanded in [(v, True) for v in named] + [(v, False) for v in extra]:
+            if not demanded:
+                # consistency class: only when this method rejects the scalar form of the value
+                if outcome_of(lambda: call(with_param(name, kw0, prm, v))) != 'rejected':
+                    ctx.count('pair-entry:scalar-form-accepted(not demanded)')
+                    continue
+            numeric = isinstance(v, (int, float))
+            for pos in (0, 1, 'both'):
+                pair = [v, v] if pos == 'both' else [v if k == pos else good[k] for k in (0, 1)]
+                for form in (PAIR_FORMS if numeric else PAIR_FORMS[:2]):
+                    if not demanded and form != 'tuple' and rng.random() < 0.5:
+                        continue
+                    value = as_form(pair, form)
+                    outcome = outcome_of(lambda: call(with_param(name, kw0, prm, value)))
+                    if outcome == 'other:OverflowError' and isinstance(v, float) and np.isinf(v):
+                        # the integer conversion of +-inf raises OverflowError (Model/Validate.convert: `overflowError`, diffed at the
+                        # checker level): a rejection, not a silent use - recorded, not reported
+                        outcome = 'rejected'
+                        ctx.count('pair-entry:inf rejected with OverflowError')
+                        ctx.notes.append('an infinite entry of an integer-valued pair parameter (half windows) is rejected with OverflowError '
+                                         '(np.asarray(..., dtype=intp)), not ValueError/TypeError')
+                    ctx.case((dim, name, prm, 'pair', repr(v), pos, form), nontrivial=True,
+                             sample={'method': f'{dim}:{name}', 'parameter': prm, 'value': show(value), 'outcome': outcome}
+                             if pos != 'both' and form == 'tuple' and len(ctx.samples) < 6 and name in ('snip', 'mor') else None)
+                    ctx.count('pair-entry:' + ('one-invalid' if pos != 'both' else 'both-invalid'))
+                    ctx.count('pair-class:' + ('nan' if isinstance(v, float) and np.isnan(v) else repr(v)))
+                    if outcome != 'rejected':
+                        what = (f'pair with exactly one out-of-domain entry ({v!r} at position {pos})' if pos != 'both' else f'pair of two out-of-domain entries ({v!r})')
+                        why = what + ('' if demanded else f'; the scalar {prm}={v!r} is rejected by the same method')
+                        report(prm, pair, form, outcome, why, 'pair' if demanded else 'pair-consistency')
 
 
 def method_level(ctx, dis):
@@ -205,6 +344,8 @@ def method_level(ctx, dis):
                         sig = f'{dim}:{name}:{prm}:' + ('noninteger' if nonint else 'domain')
                         dis.append(Disagreement('c15.param', sig, f'{dim} {name}({prm}={v!r}) {"returned a baseline" if outcome == "returned" else "raised " + outcome[6:]} '
                                                 f'instead of raising ValueError/TypeError', {'kind': 'param', 'two_d': two_d, 'method': name, 'param': prm, 'value': v}, True))
+            if xord == 'sorted':
+                forms_and_pairs(ctx, dis, rng, dim, two_d, name, e, kw0, lambda kw: run(two_d, name, x, z, data, kw))
             # ---- non-finite data at any position (default check_finite=True)
             for bad in (np.nan, np.inf, -np.inf):
                 for pos in ('first', 'last', 'random'):
@@ -361,15 +502,15 @@ def replay(ctx, data):
         x, Y = M.make_data(rng, 60)
         z = None
     kw = M.filter_kwargs(e, M.call_kwargs(r['method'], two_d))
-    kw[r['param']] = r['value']
+    kw[r['param']] = as_form(r['value'], r.get('form'))
     if r['method'] in LAM_OPTIONAL and r['param'] == 'diff_order':
         kw['lam'] = 10.0
     data_ = np.array([Y, Y * 1.1]) if r['method'] == 'collab_pls' else Y
     try:
         fit = Baseline2D(x, z) if two_d else Baseline(x)
         getattr(fit, r['method'])(data_, **kw)
-        return f'{r["method"]}({r["param"]}={r["value"]!r}) returned a baseline'
+        return f'{r["method"]}({r["param"]}={show(kw[r["param"]])}) returned a baseline'
     except (ValueError, TypeError):
         return None
     except Exception as ex:
-        return f'{r["method"]}({r["param"]}={r["value"]!r}) raised {type(ex).__name__}'
+        return f'{r["method"]}({r["param"]}={show(kw[r["param"]])}) raised {type(ex).__name__}'
